@@ -192,6 +192,24 @@ def _parse_rules(c, t, toks, names, pic, oks):
     if not oks:
         return
     kinds = [x[1] for x in toks]
+    # leftover input: a value is assembled only after the whole text was consumed
+    for e in evs:
+        c.rec('C05', f"parse {t} [{pic}]: input text left over is rejected (the value is built only from fully consumed text)",
+              bool(e[4].get('input_consumed')), 'no provably empty remaining input at the assembly step')
+    # weekday fields are compared with the weekday of the date
+    if any(k in ('DayOfWeek', 'DayName') for k in kinds) and t in DATE_T:
+        for e in evs:
+            c.rec('C05', f"parse {t} [{pic}]: a weekday field is checked against the date", e[4].get('dowcmp', 0) >= 1, 'no weekday comparison on the accepting path')
+    # day of year: 1..=365, 366 only in leap years
+    if 'DayOfYear' in kinds and t in DATE_T:
+        hi = {True: 0, False: 0}
+        lo_ok = True
+        for e in c.I.events:
+            if e[0] == 'doy' and e[2] is not None:
+                hi[e[2]] = max(hi[e[2]], e[1][1])
+                lo_ok = lo_ok and e[1][0] >= 1
+        c.rec('C05', f"parse {t} [{pic}]: day of year accepted exactly in 1..=365 (366 in leap years)", lo_ok and hi[True] == 366 and hi[False] == 365,
+              f"largest accepted day of year: leap {hi[True]}, common {hi[False]}; lower bound ok: {lo_ok}")
     # 12-hour field: only 1..=12 reach the assembly (0 and 13.. are rejected, empty input defaults to 12)
     if kinds == ['Hour12']:
         for e in evs:
@@ -199,6 +217,21 @@ def _parse_rules(c, t, toks, names, pic, oks):
             if h:
                 lo, hi = h[1]
                 c.rec('C05', f"parse {t} [{pic}]: a 12-hour value outside 1..=12 is rejected", lo >= 1 and hi <= 12, f"hour reaching the assembly in [{lo}, {hi}]")
+    # 12-hour clock with a meridian, in both field orders: AM maps 12 to 0, PM adds 12 except to 12
+    if sorted(kinds) == ['AmPm', 'Hour12']:
+        seen = set()
+        for e in evs:
+            h = e[4].get('hour')
+            am = e[4].get('ampm')
+            if not h or am is None:
+                c.rec('C05', f"parse {t} [{pic}]: meridian decided on the accepting path", False, f"hour {h}, meridian {am}")
+                continue
+            lo, hi = h[1]
+            seen.add(am)
+            want = {'Am': (0, 11), 'Pm': (12, 23), 'none': (1, 12)}[am]
+            c.rec('C05', f"parse {t} [{pic}]: 12-hour value with meridian {am} denotes an hour in {want[0]}..={want[1]}", want[0] <= lo and hi <= want[1],
+                  f"hour reaching the assembly in [{lo}, {hi}]")
+        c.rec('C05', f"parse {t} [{pic}]: AM, PM and an absent meridian are all accepted", seen >= {'Am', 'Pm', 'none'}, f"{sorted(seen)}")
     # C18: which fields come from the clock
     has_date = t in DATE_T
     year_tok = [x for x in toks if x[1] == 'Year']
